@@ -234,6 +234,8 @@ def run_case(case):
         return _arith(case)
     if k == 'fixedpoint':
         return _fixed(case)
+    if k == 'fpnum_chain':
+        return _chain(case)
     raise HarnessError('unknown kind ' + str(k))
 
 
@@ -336,6 +338,49 @@ def _arith(case):
     return ok(nt, [tag])
 
 
+def _show(fr):
+    """printable form of a rational of any magnitude"""
+    n, d = fr.numerator, fr.denominator
+    if n.bit_length() < 80 and d.bit_length() < 80:
+        return '{}/{}'.format(n, d)
+    return '{}0x{:x}.. ({} bits) / 2**{}'.format('-' if n < 0 else '', abs(n) >> max(0, abs(n).bit_length() - 48), abs(n).bit_length(), d.bit_length() - 1)
+
+
+def _chain(case):
+    """a running value combined with a list of operands: every intermediate result must be the exact rational (products
+    of products need arbitrarily many bits, sums of far apart magnitudes arbitrarily long alignments)"""
+    tag = 'fpnum:chain'
+    try:
+        acc = _mk(case['a'])
+    except Exception as e:
+        return fail('FPNum.construct|exc:' + type(e).__name__, 'constructing {} raised {!r}'.format(case['a'], e), cls=[tag])
+    val = _ref_value(case['a'])
+    maxbits = 0
+    for k, (op, d) in enumerate(case['ops']):
+        try:
+            b = _mk(d)
+            vb = _ref_value(d)
+            acc = {'add': acc.add, 'sub': acc.sub, 'mul': acc.mul}[op](b)
+        except Exception as e:
+            return fail('FPNum.chain|{}|exc:{}'.format(op, type(e).__name__), 'step {} of {} raised {!r}'.format(k, case, e), cls=[tag])
+        val = {'add': val + vb, 'sub': val - vb, 'mul': val * vb}[op]
+        got = fpnum_fraction(acc)
+        if got != val:
+            return fail('FPNum.chain|' + op, 'step {} ({}) of chain {} from {}: result denotes {} expected {}'.format(
+                k, op, case['ops'][:k + 1], case['a'], _show(got), _show(val)), cls=[tag])
+        maxbits = max(maxbits, val.denominator.bit_length() + abs(val.numerator).bit_length())
+        # order against the exact value of the operand
+        exp = (val > vb) - (val < vb)
+        try:
+            cmpv = acc.compare(b)
+        except Exception as e:
+            return fail('FPNum.chain|compare|exc:' + type(e).__name__, 'compare after step {} raised {!r}'.format(k, e), cls=[tag])
+        if cmpv != exp and not (val == 0 and vb == 0):
+            return fail('FPNum.chain|compare', 'after step {} of chain {} from {}: compare with the operand gives {} expected {}'.format(
+                k, case['ops'][:k + 1], case['a'], cmpv, exp), cls=[tag])
+    return ok(maxbits > 250, [tag] + (['wide_intermediate'] if maxbits > 250 else []))
+
+
 def _fx_value(raw, w, fw):
     return Fraction(to_signed(raw, w), 1 << fw)
 
@@ -422,6 +467,16 @@ def _arith_strategy():
         lambda t: {'kind': 'fpnum_arith', 'a': t[0][0], 'b': t[0][1], 'op': t[1], 'n': t[2]})
 
 
+def _chain_strategy():
+    d = _finite_desc()
+    wide = st.tuples(st.sampled_from([1, -1]), st.one_of(st.integers(-300, 300), st.integers(-6000, 6000)), st.integers(1, 1 << 260),
+                     st.integers(0, 260).map(lambda k: 1 << k)).map(lambda t: ['semp'] + list(t))
+    tiny = st.sampled_from([['f', 1.0 + 2.0 ** -52], ['f', 5e-324], ['f', 1.7976931348623157e308], ['f', 1.0], ['f', -1.5], ['f', 3.0]])
+    operand = st.one_of(d, wide, tiny)
+    step = st.tuples(st.sampled_from(['mul', 'mul', 'add', 'sub']), operand).map(list)
+    return st.tuples(operand, st.lists(step, min_size=1, max_size=6)).map(lambda t: {'kind': 'fpnum_chain', 'a': t[0], 'ops': t[1]})
+
+
 def _c2_strategy():
     from ..cat_arith import width_st, value_st
     return width_st(1, 128).flatmap(lambda w: st.tuples(value_st(w), st.integers(0, 64)).map(
@@ -466,5 +521,6 @@ def strata(tier):
         {'name': 'dp_random', 'kind': 'hyp', 'examples': n, 'strategy': lambda: _pattern_strategy('dp'), 'run_case': run_case},
         {'name': 'twos_complement', 'kind': 'hyp', 'examples': n, 'strategy': _c2_strategy, 'run_case': run_case},
         {'name': 'fpnum_arithmetic', 'kind': 'hyp', 'examples': n, 'strategy': _arith_strategy, 'run_case': run_case},
+        {'name': 'fpnum_chains', 'kind': 'hyp', 'examples': n // 2, 'strategy': _chain_strategy, 'run_case': run_case},
         {'name': 'fixedpoint_helper', 'kind': 'hyp', 'examples': n, 'strategy': _fixed_strategy, 'run_case': run_case},
     ]
